@@ -198,7 +198,7 @@ theorem OwnInvA.base : Base E (OwnInvA a) (okOwn a) where
     unfold Foca.addUpdate
     exact Pres.modS_of (fun s hs => OwnInvA.of_same a (s := s) rfl rfl (Or.inl rfl) hs)
   modCtl := fun f h => Pres.modS_of (fun s hs =>
-    OwnInvA.of_same a (h s).2.2.2.2.2.1 (h s).1 (h s).2.2.2.2.2.2.2.2 hs)
+    OwnInvA.of_same a (h s).2.2.2.2.2.1 (h s).1 (h s).2.2.2.2.2.2.2.2.1 hs)
   setHst := fun _ => Pres.modS_of (fun s hs => OwnInvA.of_same a (s := s) rfl rfl (Or.inl rfl) hs)
   addCustom := fun _ _ _ _ => Pres.modS_of (fun s hs => OwnInvA.of_same a (s := s) rfl rfl (Or.inl rfl) hs)
 
